@@ -1179,6 +1179,27 @@ func (vc *VC) havocLocation(st *State, pre *State, loc string, env map[string]Va
 			vc.declareFun("uf_"+condRel, []string{"Int", "Int"}, "Bool")
 		}
 	}
+	if strings.HasPrefix(loc, "*") {
+		// pointee of a pointer to a non-struct value
+		e, err := parseSpecExpr(loc[1:])
+		if err != nil {
+			vc.unsupportedf(c.Pos(), "bad modifies location %q: %v", loc, err)
+			return
+		}
+		bv := vc.specEval(pre, pre, e, nil, env)
+		pt, ok := bv.Ty.Underlying().(*types.Pointer)
+		if !ok {
+			vc.unsupportedf(c.Pos(), "modifies location %q: not a pointer", loc)
+			return
+		}
+		es := vc.sortOf(pt.Elem())
+		key := "ptr:" + es
+		arr := vc.heapGet(st, key, es)
+		nv := vc.fresh("pointee", es)
+		vc.assumeRange(st, Val{S: nv, Ty: pt.Elem(), Sort: es})
+		st.heap[key] = vc.define("H_"+key, "(Array Int "+es+")", fmt.Sprintf("(ite (= %s 0) %s (store %s %s %s))", bv.S, arr, arr, bv.S, nv))
+		return
+	}
 	// split last component
 	k := strings.LastIndex(loc, ".")
 	if k < 0 {
